@@ -97,6 +97,7 @@ THROWER_SAFE = {
     # a command of script.parse(): a hex string for a push -- or ERROR_COMMAND ("[error]") for a truncated one, which is no hex
     "btclib.script.sig_hash.redeem_script:fromhex": ("precheck", "ERROR_COMMAND"),
     "btclib.script.taproot._output_pubkey_and_internal_key:fromhex": "literal NUMS constant",
+    "btclib.block.block_header.BlockHeader.parse:fromtimestamp": "the operand is four unsigned bytes of the header: 0 .. 2106-02-07, always a date",
     "btclib.mnemonic.electrum._search_mnemonic:int2": "a string of 0/1 the library just formatted",
     "btclib.mnemonic.electrum.mnemonic_from_entropy:int2": "a string of 0/1 the library just formatted",
     "btclib.mnemonic.electrum.old_mnemonic_from_hex_seed:int2": ("handler-or-precheck", "hex"),
@@ -128,6 +129,9 @@ def _thrower_kind(ctx: Ctx, fi: FuncInfo, call: ast.Call) -> str | None:
         return "b64"
     if full in ("json.loads", "json.load"):
         return "json"
+    if nm in ("fromtimestamp", "utcfromtimestamp") and not in_pkg:
+        # year 0 / year 10000 are a ValueError (an OverflowError / OSError past the platform's time_t)
+        return "fromtimestamp"
     if nm == "Decimal" and not in_pkg:
         # Decimal(text) raises InvalidOperation on hostile text; Decimal(<int field>) / Decimal(<int literal>) cannot
         a0 = call.args[0] if call.args else None
@@ -151,7 +155,7 @@ NEEDS = {
     # b64decode of a non-ascii *str* raises a plain ValueError, not binascii.Error: only ValueError covers both
     "b64": {"ValueError"}, "json": {"ValueError", "json.JSONDecodeError", "JSONDecodeError"},
     "Decimal": {"ArithmeticError", "InvalidOperation", "decimal.InvalidOperation"}, "struct": {"struct.error", "error"},
-    "int2": {"ValueError"}, "float": {"ValueError"},
+    "int2": {"ValueError"}, "float": {"ValueError"}, "fromtimestamp": {"ValueError"},
 }
 CATCH_ALL = {"Exception", "BaseException"}
 
